@@ -274,8 +274,9 @@ Definition icmp6_calc_checksum e (t : icmp6_type) (src dst : bytes) (payload : b
                        icmp6_pieces t ++ [PSlice payload])).
 
 (* Icmpv6Slice::is_checksum_valid: sums pseudo header and the whole slice
-   (checksum field included) and compares ones_complement() with 0.  No range
-   check precedes `slice.len() as u32`. *)
+   (checksum field included) and compares ones_complement() with 0.  The
+   narrowing `slice.len() as u32` is lossless for every slice accepted by
+   Icmpv6Slice::from_slice (8 <= len <= u32::MAX); it is modelled as mod 2^32. *)
 Definition icmp6_is_checksum_valid e (slice : bytes) (src dst : bytes) : bool :=
   U64.ones_complement
     (sum_pieces64 e 0 [P16 src; P16 dst; P4w (as_u32 (len slice)); P2 0 IPN_ICMPV6; PSlice slice])
